@@ -1,2 +1,120 @@
 import NrDaemon.Model.Proc
-/-! C02 — theorems (see DESIGN.md §6). -/
+import NrDaemon.Gen.SwapTable
+import NrDaemon.Props.C07
+/-!
+  C02 — failed deliveries are retried only as specified, with bounded attempts.
+  `Gen.Status.shouldSaveHarvestData` and `Gen.SwapTable.failedHarvest` are regenerated from the Go source.
+-/
+open Gen.Limits
+
+/-- **C02 (retryable statuses; over the regenerated classification).**  A failed request's data is saved for the next
+harvest iff the status is 408, 429, 500 or 503. -/
+theorem C02_retry_statuses (c : Int) :
+    Gen.Status.shouldSaveHarvestData c = true ↔ (c = 408 ∨ c = 429 ∨ c = 500 ∨ c = 503) := by
+  unfold Gen.Status.shouldSaveHarvestData
+  by_cases h1 : c = 408 <;> by_cases h2 : c = 429 <;> by_cases h3 : c = 500 <;> by_cases h4 : c = 503 <;> simp [h1, h2, h3, h4]
+
+/-- **C02 (retryable categories; over the regenerated table of `FailedHarvest` methods).**  Metrics and the five event
+categories are merged back into the harvest of the same category; errors, slow SQLs, traces and package lists are
+never retried. -/
+theorem C02_retry_categories :
+    Gen.SwapTable.failedHarvest =
+      [("MetricTable", "Metrics"), ("ErrorHeap", ""), ("SlowSQLs", ""), ("TxnTraces", ""), ("TxnEvents", "TxnEvents"),
+       ("CustomEvents", "CustomEvents"), ("ErrorEvents", "ErrorEvents"), ("SpanEvents", "SpanEvents"),
+       ("LogEvents", "LogEvents"), ("PhpPackages", "")] := by decide
+
+/-- the model's `failedHarvest` keeps nothing for the non-retryable categories -/
+theorem C02_never_retried (h : HarvestM) (p : Payload) :
+    failedHarvest h p .errors = h ∧ failedHarvest h p .slowSql = h ∧ failedHarvest h p .traces = h ∧
+    failedHarvest h p .packages = h := by
+  refine ⟨?_, ?_, ?_, ?_⟩ <;> (unfold failedHarvest; cases p <;> rfl)
+
+/-- the attempt limits are the documented ones (regenerated from limits.go) -/
+theorem C02_limits : FailedMetricAttemptsLimit = 5 ∧ FailedEventsAttemptsLimit = 10 := by decide
+
+/-- one carry-over of an event payload: given up when it has already failed `limit` times, otherwise merged with the
+counter advanced by one -/
+theorem C02_events_step (limit : Nat) (cur failed : Res) :
+    (failed.failed + 1 > limit → cur.mergeFailed limit failed = cur) ∧
+    (failed.failed + 1 ≤ limit → (cur.mergeFailed limit failed).failed = failed.failed + 1) := by
+  unfold Res.mergeFailed
+  constructor
+  · intro h; simp [h]
+  · intro h
+    have : ¬ failed.failed + 1 > limit := by omega
+    simp [this, Res.merge]
+
+/-- the payload that keeps failing: attempt `k+1` sends what attempt `k` carried into a fresh reservoir -/
+def eventChain (limit cap : Nat) (first : Res) : Nat → Res
+  | 0 => first
+  | k + 1 => (Res.new cap).mergeFailed limit (eventChain limit cap first k)
+
+/-- **C02 (bounded attempts, events).**  A payload that fails every time carries the counter `k` after `k` failures
+while `k ≤ limit`, and after `limit + 1` failures nothing of it is held any more: it is sent at most `1 + limit`
+(= 11) times. -/
+theorem C02_events_attempts_bounded (limit cap : Nat) (first : Res) (h0 : first.failed = 0) :
+    (∀ k, k ≤ limit → (eventChain limit cap first k).failed = k) ∧
+    (eventChain limit cap first (limit + 1)).evs = #[] := by
+  have hk : ∀ k, k ≤ limit → (eventChain limit cap first k).failed = k := by
+    intro k
+    induction k with
+    | zero => intro _; exact h0
+    | succ k ih =>
+      intro hle
+      have := ih (by omega)
+      simp only [eventChain]
+      rw [(C02_events_step limit (Res.new cap) _).2 (by omega), this]
+  refine ⟨hk, ?_⟩
+  simp only [eventChain]
+  rw [(C02_events_step limit (Res.new cap) _).1 (by rw [hk limit (Nat.le_refl _)]; omega)]
+  rfl
+
+/-- one carry-over of a metric payload -/
+theorem C02_metrics_step (limit : Nat) (cur failed : MTable) :
+    (failed.failed + 1 > limit → cur.mergeFailed limit failed = cur) ∧
+    (failed.failed + 1 ≤ limit → (cur.mergeFailed limit failed).failed = failed.failed + 1) := by
+  unfold MTable.mergeFailed
+  constructor
+  · intro h; simp [h]
+  · intro h
+    have hn : ¬ failed.failed + 1 > limit := by omega
+    simp only [hn, if_false]
+    have : ∀ (src : List (MKey × Metric)) (t : MTable), (t.mergeOrd src).failed = t.failed := by
+      intro src
+      induction src with
+      | nil => intro t; rfl
+      | cons p src ih =>
+        intro t
+        simp only [MTable.mergeOrd, List.foldl_cons] at *
+        rw [ih]
+        unfold MTable.mergeMetric
+        split
+        · split <;> rfl
+        · rfl
+    simp [MTable.merge, this]
+
+/-- the metric payload that keeps failing, with the collector's rename rules applied before every send -/
+def metricChain (limit : Nat) (rename : String → String) (first : MTable) : Nat → MTable
+  | 0 => first.applyRules rename
+  | k + 1 => (((MTable.new first.max).mergeFailed limit (metricChain limit rename first k))).applyRules rename
+
+/-- **C02 (bounded attempts, metrics, with rename rules).**  The attempt counter survives renaming, so a metric
+payload that fails every time is sent at most `1 + limit` (= 6) times and is then given up. -/
+theorem C02_metrics_attempts_bounded (limit : Nat) (rename : String → String) (first : MTable) (h0 : first.failed = 0) :
+    (∀ k, k ≤ limit → (metricChain limit rename first k).failed = k) ∧
+    (metricChain limit rename first (limit + 1)).ms = [] := by
+  have keep : ∀ t : MTable, (t.applyRules rename).failed = t.failed := fun t =>
+    (C07_rename_keeps_attempts t rename t.ms).1
+  have hk : ∀ k, k ≤ limit → (metricChain limit rename first k).failed = k := by
+    intro k
+    induction k with
+    | zero => intro _; simp only [metricChain]; rw [keep]; exact h0
+    | succ k ih =>
+      intro hle
+      have := ih (by omega)
+      simp only [metricChain]
+      rw [keep, (C02_metrics_step limit _ _).2 (by omega), this]
+  refine ⟨hk, ?_⟩
+  simp only [metricChain]
+  rw [(C02_metrics_step limit _ _).1 (by rw [hk limit (Nat.le_refl _)]; omega)]
+  simp [MTable.applyRules, MTable.applyRulesOrd, MTable.new]
